@@ -1,6 +1,6 @@
 (* C12: session table model (coq/Sessions/Sessions.v).
    se <timeout_s> <max_idle> <tok>*
-     x:<key>:<now>  xv:<key>:<now>:<victim>  +:<sid>:<h>  -:<sid>:<h>  q:<sid>:<0|1>  t:<sid>:<now>  s:<sid>:<state>
+     x:<key>:<now>  xv:<key>:<now>:<victim>  a:<key>:<now> (accept)  +:<sid>:<h>  -:<sid>:<h>  q:<sid>:<0|1>  t:<sid>:<now>  s:<sid>:<state>
      p:<now>  F (coap_free_context)  B (print the table)
    output: the events each operation appends to the log (R:<key>:<sid> N:<sid>:<key> D:<sid>
    F:<sid>), B[<sid>:<key>:<ref>:<last>:<dq>;...] at every B, "!<tok>" and stop when an
@@ -14,6 +14,7 @@ let se_op_of_tok (s : string) : se_op option =
   match String.split_on_char ':' s with
   | ["x"; k; n] -> Some (OpRx (zi k, zi n))
   | ["xv"; k; n; v] -> Some (OpRxV (zi k, zi n, zi v))
+  | ["a"; k; n] -> Some (OpAccept (zi k, zi n))
   | ["+"; i; h] -> Some (OpAdd (zi i, zi h))
   | ["-"; i; h] -> Some (OpRem (zi i, zi h))
   | ["q"; i; b] -> Some (OpDq (zi i, b = "1"))
